@@ -327,6 +327,26 @@ def _subst(test, nodes, value):
     return R().visit(t)
 
 
+def d_minimised_function(ctx, fits, rule='C08-D6'):
+    """the derivatives of the result (Hessian, mixed derivatives) are taken of `chisqfunc`; the point they are taken at has to be its
+    minimum: the last minimiser call on every path minimises the same function - the correlated one under `correlated_fit`"""
+    f = fits.func('least_squares')
+    mins = [c for c in walk(f) if isinstance(c, ast.Call) and (fits.dotted(c.func) or '').rpartition('.')[2] in ('minimize', 'least_squares') and c.args
+            and ((fits.dotted(c.func) or '').startswith(('scipy.', 'iminuit')))]
+    n = 0
+    for c in mins:
+        corr = [unparse(t) for t, pol in guards_of(fits, c, stop=f) if pol and 'correlated_fit' in unparse(t)]
+        if not corr:
+            continue
+        n += 1
+        a0 = unparse(c.args[0])
+        ctx.check(rule, 'fits.py:least_squares#refit[%s]' % (fits.dotted(c.func) or '').rpartition('.')[0], isinstance(c.args[0], ast.Name) and 'uncorr' not in a0 and a0.startswith(('chisqfunc', 'chisqfunc_residuals')),
+                  'under correlated_fit the final minimisation is that of the correlated chi-square',
+                  'the pass run for correlated_fit minimises `%s`: the returned parameters are the minimum of the uncorrelated chi-square while Hessian and mixed derivatives are those of the '
+                  'correlated one' % a0, fits.loc(c))
+    ctx.floor('second-pass minimisations under correlated_fit', n, 3)
+
+
 def run(ctx):
     ctx.rule('C08-D1', 'layout agreement of the two implicit-function steps')
     ctx.rule('C08-D2', 'sign and Hessian')
@@ -342,6 +362,7 @@ def run(ctx):
     ctx.rule('C08-D6', 'least_squares: implicit-function layout, sign and residual definitions (shared analysis with C07)')
     ctx.guarded('C08-D6', 'fits.py:least_squares@layout', C07.d1_layout, ctx, fits, 'C08-D6', 'C08-D6', 'C08-D6')
     ctx.guarded('C08-D6', 'fits.py:least_squares@chisq', C07.d6_chisq, ctx, fits, 'C08-D6')
+    ctx.guarded('C08-D6', 'fits.py:least_squares@refit', d_minimised_function, ctx, fits)
     ctx.rule('C08-D8', 'convergence gate: no result from a minimiser that did not converge')
     ctx.guarded('C08-D8', 'fits.py@convergence', d_convergence_gate, ctx, fits)
     from .. import unusedparams, leakedloop
